@@ -193,8 +193,35 @@ func sub(a, b Term) Term {
 	}
 	return app(SInt, "-", a, b)
 }
-func le(a, b Term) Term { return app(SBool, "<=", a, b) }
-func lt(a, b Term) Term { return app(SBool, "<", a, b) }
+func litInt(t Term) (int64, bool) {
+	if t.S == "" || t.S[0] < '0' || t.S[0] > '9' || len(t.S) > 17 {
+		return 0, false
+	}
+	n, err := strconv.ParseInt(t.S, 10, 64)
+	return n, err == nil
+}
+func le(a, b Term) Term {
+	if x, ok := litInt(a); ok {
+		if y, ok := litInt(b); ok {
+			if x <= y {
+				return tTrue
+			}
+			return tFalse
+		}
+	}
+	return app(SBool, "<=", a, b)
+}
+func lt(a, b Term) Term {
+	if x, ok := litInt(a); ok {
+		if y, ok := litInt(b); ok {
+			if x < y {
+				return tTrue
+			}
+			return tFalse
+		}
+	}
+	return app(SBool, "<", a, b)
+}
 
 // ---------------------------------------------------------------------------
 
@@ -225,6 +252,31 @@ type VC struct {
 	assumed   map[string]bool
 	notes     []string
 	bounded   []Term // stack of bound variable names (informational)
+	lets      map[string][]letDef // binder name -> let definitions made inside it
+	binders   []string            // stack of open binders
+}
+
+type letDef struct{ name, expr string }
+
+func (vc *VC) openBinder(name string) {
+	if vc.lets == nil {
+		vc.lets = map[string][]letDef{}
+	}
+	vc.binders = append(vc.binders, name)
+	vc.noName++
+}
+
+// closeBinder wraps body in the let-definitions made inside the binder.
+func (vc *VC) closeBinder(body Term) Term {
+	name := vc.binders[len(vc.binders)-1]
+	vc.binders = vc.binders[:len(vc.binders)-1]
+	vc.noName--
+	ls := vc.lets[name]
+	s := body.S
+	for i := len(ls) - 1; i >= 0; i-- {
+		s = "(let ((" + ls[i].name + " " + ls[i].expr + ")) " + s + ")"
+	}
+	return Term{s, body.Sort}
 }
 
 func newVC(e *Engine) *VC {
@@ -298,8 +350,18 @@ func (vc *VC) assert(t Term) {
 
 // name gives a large closed term a name, so that later terms stay small.
 func (vc *VC) name(prefix string, t Term) Term {
-	if vc.noName > 0 || len(t.S) <= vc.nameLimit {
+	if len(t.S) <= vc.nameLimit {
 		return t
+	}
+	if vc.noName > 0 {
+		if len(vc.binders) == 0 {
+			return t
+		}
+		vc.nfresh++
+		n := fmt.Sprintf("l!%d", vc.nfresh)
+		b := vc.binders[len(vc.binders)-1]
+		vc.lets[b] = append(vc.lets[b], letDef{n, t.S})
+		return Term{n, t.Sort}
 	}
 	c := vc.fresh(prefix, t.Sort)
 	vc.asserts = append(vc.asserts, "(= "+c.S+" "+t.S+")")
